@@ -71,7 +71,7 @@ def eval_batch(job):
             f.write(json.dumps(e) + "\n")
     try:
         r = subprocess.run([common.INKMODEL, "expr", hdr], capture_output=True, text=True, timeout=120)
-        spec = common.parse_json_lines(r.stdout.splitlines())
+        spec = common.parse_json_lines(r.stdout.split("\n"))
     except subprocess.TimeoutExpired:
         spec = []
     for k, e in enumerate(exprs):
